@@ -20,6 +20,7 @@ from optyx.core.vectors import (
     VectorExpression,
     DomainType,
     LinearCombination,
+    _as_vector_operand,
 )
 from optyx.core.errors import (
     DimensionMismatchError,
@@ -1234,6 +1235,7 @@ class MatrixVectorProduct(VectorExpression):
                 got_ndim=matrix.ndim,
             )
 
+        vector = _as_vector_operand(vector)
         vec_size = vector.size if hasattr(vector, "size") else len(vector)
         if matrix.shape[1] != vec_size:
             raise DimensionMismatchError(
@@ -1335,6 +1337,7 @@ class QuadraticForm(Expression):
                 shape=matrix.shape,
             )
 
+        vector = _as_vector_operand(vector)
         vec_size = vector.size if hasattr(vector, "size") else len(vector)
         if matrix.shape[0] != vec_size:
             raise DimensionMismatchError(
